@@ -172,3 +172,48 @@ theorem nextCell_spec (q : Qty) (hq : q.dim = 1 ∨ q.dim = 2) (w s e : Nat) (hs
     rw [Nat.shiftLeft_eq, Nat.add_mul, ← Nat.shiftLeft_eq, e1]; omega
 
 end Moc
+
+namespace Moc
+
+theorem narrow_eq (k x : Nat) : narrow k x = x / 2 ^ k := by simp [narrow, Nat.shiftRight_eq_div_pow]
+
+/-- The indices (on the narrower type) of the values of a non-empty half-open range `[a, b)` are exactly
+    `[narrow a, narrowUp b)`. -/
+theorem narrow_image (k a b y : Nat) (hab : a < b) :
+    (narrow k a ≤ y ∧ y < narrowUp k b) ↔ ∃ t, a ≤ t ∧ t < b ∧ narrow k t = y := by
+  have hc : 0 < 2 ^ k := Nat.pos_of_ne_zero (by simp)
+  unfold narrowUp
+  simp only [narrow_eq, widen, Nat.shiftLeft_eq]
+  generalize 2 ^ k = c at *
+  have hb := Nat.div_add_mod b c
+  have hb' := Nat.mod_lt b hc
+  have hbm : c * (b / c) = b / c * c := Nat.mul_comm _ _
+  constructor
+  · rintro ⟨h1, h2⟩
+    by_cases hy : y = a / c
+    · exact ⟨a, Nat.le_refl _, hab, hy.symm⟩
+    · refine ⟨y * c, ?_, ?_, Nat.mul_div_cancel _ hc⟩
+      · have : a / c + 1 ≤ y := by omega
+        have h3 := Nat.mul_le_mul_right c this
+        have h4 := Nat.lt_div_mul_add (a := a) hc
+        rw [Nat.add_mul] at h3
+        omega
+      · split at h2
+        · have : y ≤ b / c := by omega
+          have := Nat.mul_le_mul_right c this
+          omega
+        · have : y + 1 ≤ b / c := by omega
+          have := Nat.mul_le_mul_right c this
+          rw [Nat.add_mul] at this
+          omega
+  · rintro ⟨t, h1, h2, rfl⟩
+    refine ⟨Nat.div_le_div_right h1, ?_⟩
+    have ht : t / c ≤ b / c := Nat.div_le_div_right (Nat.le_of_lt h2)
+    split
+    · omega
+    · rename_i hn
+      have hbeq : b / c * c = b := by omega
+      have : t < b / c * c := by omega
+      exact (Nat.div_lt_iff_lt_mul hc).2 this
+
+end Moc
